@@ -49,6 +49,9 @@ type caseSpec struct {
 	noBound      bool  // retry expression without an Attempts() bound: the middleware's own maximum ends the loop
 	methodInExpr bool  // the retry expression also consults RequestMethod()
 	maxReq       int64 // MaxRequestBodyBytes (0 = not configured); never below the body size here
+	thrZero      bool  // MemRequestBodyBytes(0): accepted, and means the default threshold
+	nested       int   // 0: one buffer; 1: a second buffer (own threshold, no retries) between it and the handler; 2: the second one in front
+	nestedThr    int64
 }
 
 var methods = []string{"POST", "PUT", "PATCH", "GET", "DELETE", "POST"}
@@ -95,8 +98,15 @@ func genCase(t *rapid.T, raw bool) *caseSpec {
 	switch rapid.IntRange(0, 5).Draw(t, "thrKind") {
 	case 0:
 		c.thr, c.thrSet = 1<<20, false // default
+	case 1:
+		c.thr, c.thrSet, c.thrZero = 1<<20, true, true // MemRequestBodyBytes(0)
 	default:
 		c.thr, c.thrSet = rapid.SampledFrom(thrs).Draw(t, "thr"), true
+	}
+	// stacked buffers (one per route and one per backend, say): the extra one is invisible
+	if rapid.IntRange(0, 3).Draw(t, "stackedBuffers") == 0 {
+		c.nested = rapid.IntRange(1, 2).Draw(t, "nestedWhere")
+		c.nestedThr = rapid.SampledFrom([]int64{1, 7, 512, 32 << 10, 1 << 20}).Draw(t, "nestedThr")
 	}
 	var size int
 	th := int(c.thr)
@@ -311,7 +321,9 @@ func makeHandlers(t *rapid.T, c *caseSpec) (http.Handler, *result) {
 		_, _ = w.Write([]byte("done"))
 	})
 	opts := []buffer.Option{}
-	if c.thrSet {
+	if c.thrZero {
+		opts = append(opts, buffer.MemRequestBodyBytes(0))
+	} else if c.thrSet {
 		opts = append(opts, buffer.MemRequestBodyBytes(c.thr))
 	}
 	if c.maxReq > 0 { // a request limit the body stays within: it must make no difference
@@ -330,13 +342,29 @@ func makeHandlers(t *rapid.T, c *caseSpec) (http.Handler, *result) {
 	if c.verbose {
 		opts = append(opts, buffer.Verbose(true), buffer.Logger(formatLogger{}))
 	}
-	b, err := buffer.New(inner, opts...)
+	var protected http.Handler = inner
+	if c.nested == 1 {
+		second, err := buffer.New(inner, buffer.MemRequestBodyBytes(c.nestedThr))
+		if err != nil {
+			t.Fatalf("buffer.New (second buffer): %v", err)
+		}
+		protected = second
+	}
+	b, err := buffer.New(protected, opts...)
 	if err != nil {
 		t.Fatalf("buffer.New: %v", err)
 	}
+	var entry http.Handler = b
+	if c.nested == 2 {
+		second, err := buffer.New(b, buffer.MemRequestBodyBytes(c.nestedThr))
+		if err != nil {
+			t.Fatalf("buffer.New (second buffer): %v", err)
+		}
+		entry = second
+	}
 	outer := http.HandlerFunc(func(w http.ResponseWriter, r *http.Request) {
 		base = snap(r)
-		b.ServeHTTP(w, r)
+		entry.ServeHTTP(w, r)
 	})
 	return outer, res
 }
@@ -409,7 +437,7 @@ func verdict(t *rapid.T, c *caseSpec, res *result, status int, how string) {
 		res.problems = append(res.problems, fmt.Sprintf("client got status %d, want %d", status, wantStatus))
 	}
 	if len(res.problems) > 0 {
-		t.Fatalf("%s: %s %s, body %d bytes (chunked=%v chunks=%v), MemRequestBodyBytes=%d (set=%v), retries=%d (unbounded expression: %v, verbose: %v), script=%+v, headers=%v:\n  %s", how, c.method, c.target, len(c.body), c.chunked, summarize(c.chunks), c.thr, c.thrSet, c.retries, c.noBound, c.verbose, c.script, c.headers, strings.Join(res.problems, "\n  "))
+		t.Fatalf("%s: %s %s, body %d bytes (chunked=%v chunks=%v), MemRequestBodyBytes=%d (set=%v, given as 0: %v), stacked second buffer: %d (threshold %d), retries=%d (unbounded expression: %v, verbose: %v), script=%+v, headers=%v:\n  %s", how, c.method, c.target, len(c.body), c.chunked, summarize(c.chunks), c.thr, c.thrSet, c.thrZero, c.nested, c.nestedThr, c.retries, c.noBound, c.verbose, c.script, c.headers, strings.Join(res.problems, "\n  "))
 	}
 	spilled := int64(len(c.body)) > c.thr
 	earlier := false
@@ -432,10 +460,16 @@ func verdict(t *rapid.T, c *caseSpec, res *result, status int, how string) {
 	if len(c.script) >= 2 {
 		cl = append(cl, ">=2-attempts")
 	}
+	if c.thrZero {
+		cl = append(cl, "threshold-given-as-0")
+	}
+	if c.nested > 0 {
+		cl = append(cl, "two-stacked-buffers")
+	}
 	if int64(len(c.body)) == c.thr || int64(len(c.body)) == c.thr+1 || int64(len(c.body)) == c.thr-1 {
 		cl = append(cl, "size-at-threshold+-1")
 	}
-	vstat.Case(fmt.Sprintf("%s|%s|%s|%v|%d|%v|%v|%d|%d|%+v", how, c.method, c.target, c.headers, len(c.body), c.chunked, c.chunks, c.thr, c.retries, c.script), nt, cl,
+	vstat.Case(fmt.Sprintf("%s|%s|%s|%v|%d|%v|%v|%d|%d|%+v", how, c.method, c.target, c.headers, len(c.body), c.chunked, c.chunks, c.thr, c.retries, c.script)+fmt.Sprint(c.thrZero, c.nested, c.nestedThr), nt, cl,
 		map[string]any{"how": how, "method": c.method, "target": c.target, "headers": c.headers, "body_bytes": len(c.body), "chunked": c.chunked, "mem_threshold": c.thr, "retries": c.retries, "script(readKind,readN,mutate,fail)": fmt.Sprintf("%+v", c.script)})
 }
 
